@@ -113,7 +113,7 @@ theorem addEdgesFrom_attrs {s : HG} (h : AttrsOK s) (fmt : Fmt) (items : List Ed
   unfold addEdgesFrom
   split
   · split
-    · exact h
+    · first | exact key | exact h
     · split
       · exact h
       · exact key
